@@ -73,7 +73,8 @@ func (m *Model) AddChildTrait(name string, traitName ...trait.Name) (child *trai
 		resource.InterceptBefore(func(old, value proto.Message) {
 			oldChild := old.(*traits.Child)
 			newChild := value.(*traits.Child)
-			newChild.Traits = traitUnion(oldChild.Traits, traitName...)
+			// work on a copy: the old message (and every copy of it handed out earlier) shares this slice
+			newChild.Traits = traitUnion(append([]*traits.Trait(nil), oldChild.Traits...), traitName...)
 		}))
 	if err != nil {
 		panic(err) // shouldn't happen
@@ -88,7 +89,8 @@ func (m *Model) RemoveChildTrait(name string, traitName ...trait.Name) *traits.C
 		resource.InterceptBefore(func(old, value proto.Message) {
 			oldChild := old.(*traits.Child)
 			newChild := value.(*traits.Child)
-			newChild.Traits = traitRemove(oldChild.Traits, traitName...)
+			// work on a copy: the old message (and every copy of it handed out earlier) shares this slice
+			newChild.Traits = traitRemove(append([]*traits.Trait(nil), oldChild.Traits...), traitName...)
 		}))
 	if err != nil {
 		switch status.Code(err) {
